@@ -84,12 +84,19 @@ class BDSKModel(CallableModel):
         self.removal_probability = removal_probability
 
     def _sample_shape(self) -> torch.Size:
-        return max(
-            self.tree_model.node_heights.shape[:-1],
-            self.R.shape[:-1],
-            self.delta.shape[:-1],
-            key=len,
-        )
+        shapes = [self.tree_model.node_heights.shape[:-1]]
+        for p in (
+            self.R,
+            self.delta,
+            self.s,
+            self.rho,
+            self.origin,
+            self.times,
+            self.removal_probability,
+        ):
+            if isinstance(p, AbstractParameter):
+                shapes.append(p.shape[:-1])
+        return max(shapes, key=len)
 
     def _call(self):
         r = (
